@@ -180,7 +180,16 @@ func (h *hydrex) Save(ctx context.Context, indexName string, domain string, item
 
 	// iterating through the new items
 	for key, data := range items {
-		if _, ok := existingCoreData[key]; !ok {
+		if existing, ok := existingCoreData[key]; ok {
+			// the key stays: its index entry is untouched, but a changed value has to be stored
+			if existing.Value != data.Value {
+				itemsForSave = append(itemsForSave, &CoreData{
+					Key:       key,
+					Value:     data.Value,
+					CreatedAt: existing.CreatedAt,
+				})
+			}
+		} else {
 
 			// array for saving new items
 			itemsForSave = append(itemsForSave, &CoreData{
